@@ -158,6 +158,9 @@ def run_specs(rec, specs):
         out, ob, d = mcheck.judge(rec, ("C05",), case, extra=sp_list, want=mcheck.all_present(case) if (i // 40) % 6 == 5 else None)
         if KEEP is not None:
             KEEP.add(case)
+        if d is not None and not d.of("C05") and not [x for x in d.items if sp_list(x[0], x[1])] and (i // 40) % 2 == 0 \
+                and not mcheck.constructor_route(rec, ("C05",), case, out):
+            return
         if d is not None and not d.of("C05") and not [x for x in d.items if sp_list(x[0], x[1])]:
             for j, (phrases, ticks) in enumerate(chunk):
                 classes(rec, phrases, ticks, j)
